@@ -63,7 +63,7 @@ def _check_unfold_ref(dense):
 # ============================================================================
 @st.composite
 def _cp_case(draw, max_order=5, mask=None):
-    shape = draw(gen.shapes(2, max_order, 1, 4).filter(lambda s: gen.prod(s) <= 512))
+    shape = draw(X.shapes(2, max_order, 1, 4).filter(lambda s: gen.prod(s) <= 512))
     R = draw(st.integers(1, 4))
     cplx = draw(st.integers(0, 3)) == 0
     c = {"first": draw(first), "shape": shape, "rank": R, "cplx": cplx, "wrap": draw(st.booleans()),
@@ -214,7 +214,7 @@ def o_cp_norm(case):
 
 @st.composite
 def _cp_bad_case(draw):
-    shape = draw(gen.shapes(2, 4, 1, 4))
+    shape = draw(X.shapes(2, 4, 1, 4))
     R = draw(st.integers(1, 3))
     kind = draw(st.sampled_from(["rank_mismatch", "weights_len", "factor_3d"]))
     c = {"shape": shape, "rank": R, "kind": kind, "wkind_none": draw(st.booleans()), "seed": draw(gen.seeds),
@@ -267,7 +267,7 @@ def o_cp_bad(case):
 # ============================================================================
 @st.composite
 def _tucker_case(draw, options=False):
-    shape = draw(gen.shapes(2, 4, 1, 4))
+    shape = draw(X.shapes(2, 4, 1, 4))
     ranks = [draw(st.integers(1, 3)) for _ in shape]
     cplx = draw(st.integers(0, 3)) == 0
     c = {"first": draw(first), "shape": shape, "ranks": ranks, "cplx": cplx, "wrap": draw(st.booleans()),
@@ -407,7 +407,7 @@ def o_tucker_options(case):
 
 @st.composite
 def _tucker_bad_case(draw):
-    shape = draw(gen.shapes(2, 4, 1, 4))
+    shape = draw(X.shapes(2, 4, 1, 4))
     ranks = [draw(st.integers(1, 3)) for _ in shape]
     kind = draw(st.sampled_from(["factor_rank", "n_factors", "core_order"]))
     return {"shape": shape, "ranks": ranks, "kind": kind, "seed": draw(gen.seeds), "pos": draw(st.integers(0, len(shape) - 1)),
@@ -450,11 +450,11 @@ def o_tucker_bad(case):
 def _chain_case(draw, kind):
     """kind: 'tt' | 'tr' | 'ttm'"""
     if kind == "tt":
-        shape = draw(gen.shapes(1, 5, 1, 4).filter(lambda s: gen.prod(s) <= 512))
+        shape = draw(X.shapes(1, 5, 1, 4).filter(lambda s: gen.prod(s) <= 512))
     elif kind == "tr":
-        shape = draw(gen.shapes(2, 5, 1, 4).filter(lambda s: gen.prod(s) <= 512))
+        shape = draw(X.shapes(2, 5, 1, 4).filter(lambda s: gen.prod(s) <= 512))
     else:
-        shape = draw(gen.shapes(1, 3, 1, 3))
+        shape = draw(X.shapes(1, 3, 1, 3))
     n = len(shape)
     inner = [draw(st.integers(1, 3)) for _ in range(n - 1)]
     if kind == "tr":
@@ -808,31 +808,31 @@ def o_p2_bad(case):
 def subchecks(tier):
     S = SubCheck
     subs = [
-        S("cp/to_tensor", _cp_case(), o_cp_tensor, quick=500, thorough=7000),
-        S("cp/to_unfolded", _cp_case(), o_cp_unfolded, quick=350, thorough=5000),
-        S("cp/to_vec", _cp_case(), o_cp_vec, quick=350, thorough=5000),
-        S("cp/mask_full", _cp_case(max_order=4, mask="full"), o_cp_mask, quick=350, thorough=5000),
-        S("cp/mask_broadcast", _cp_case(max_order=4, mask="broadcast"), o_cp_mask, quick=300, thorough=4000),
-        S("cp/wrapper", _cp_wrapper_case(), o_cp_wrapper, quick=350, thorough=5000),
-        S("cp/norm", _cp_case(), o_cp_norm, quick=500, thorough=7000),
-        S("cp/reject", _cp_bad_case(), o_cp_bad, quick=350, thorough=5000),
-        S("tucker/to_tensor", _tucker_case(), o_tucker_tensor, quick=500, thorough=7000),
-        S("tucker/views", _tucker_case(), o_tucker_views, quick=350, thorough=5000),
-        S("tucker/wrapper", _tucker_case(), o_tucker_wrapper, quick=350, thorough=5000),
-        S("tucker/options", _tucker_case(options=True), o_tucker_options, quick=500, thorough=7000),
-        S("tucker/reject", _tucker_bad_case(), o_tucker_bad, quick=350, thorough=5000),
+        S("cp/to_tensor", _cp_case(), o_cp_tensor, quick=500, thorough=3500),
+        S("cp/to_unfolded", _cp_case(), o_cp_unfolded, quick=350, thorough=2500),
+        S("cp/to_vec", _cp_case(), o_cp_vec, quick=350, thorough=2500),
+        S("cp/mask_full", _cp_case(max_order=4, mask="full"), o_cp_mask, quick=350, thorough=2500),
+        S("cp/mask_broadcast", _cp_case(max_order=4, mask="broadcast"), o_cp_mask, quick=300, thorough=2000),
+        S("cp/wrapper", _cp_wrapper_case(), o_cp_wrapper, quick=350, thorough=2500),
+        S("cp/norm", _cp_case(), o_cp_norm, quick=500, thorough=3500),
+        S("cp/reject", _cp_bad_case(), o_cp_bad, quick=350, thorough=2500),
+        S("tucker/to_tensor", _tucker_case(), o_tucker_tensor, quick=500, thorough=3500),
+        S("tucker/views", _tucker_case(), o_tucker_views, quick=350, thorough=2500),
+        S("tucker/wrapper", _tucker_case(), o_tucker_wrapper, quick=350, thorough=2500),
+        S("tucker/options", _tucker_case(options=True), o_tucker_options, quick=500, thorough=3500),
+        S("tucker/reject", _tucker_bad_case(), o_tucker_bad, quick=350, thorough=2500),
     ]
     for kind in ("tt", "tr", "ttm"):
         subs += [
-            S(f"{kind}/to_tensor", _chain_case(kind), o_chain_tensor, quick=500, thorough=7000),
-            S(f"{kind}/views", _chain_case(kind), o_chain_views, quick=350, thorough=5000),
-            S(f"{kind}/wrapper", _chain_case(kind), o_chain_wrapper, quick=350, thorough=5000),
-            S(f"{kind}/reject", _chain_bad_case(kind), o_chain_bad, quick=350, thorough=5000),
+            S(f"{kind}/to_tensor", _chain_case(kind), o_chain_tensor, quick=500, thorough=3500),
+            S(f"{kind}/views", _chain_case(kind), o_chain_views, quick=350, thorough=2500),
+            S(f"{kind}/wrapper", _chain_case(kind), o_chain_wrapper, quick=350, thorough=2500),
+            S(f"{kind}/reject", _chain_bad_case(kind), o_chain_bad, quick=350, thorough=2500),
         ]
     subs += [
-        S("parafac2/slices", _p2_case(), o_p2_slices, quick=250, thorough=5000),
-        S("parafac2/tensor_views", _p2_case(), o_p2_tensor, quick=250, thorough=5000),
-        S("parafac2/wrapper", _p2_case(), o_p2_wrapper, quick=350, thorough=5000),
-        S("parafac2/reject", _p2_bad_case(), o_p2_bad, quick=350, thorough=5000),
+        S("parafac2/slices", _p2_case(), o_p2_slices, quick=250, thorough=2500),
+        S("parafac2/tensor_views", _p2_case(), o_p2_tensor, quick=250, thorough=2500),
+        S("parafac2/wrapper", _p2_case(), o_p2_wrapper, quick=350, thorough=2500),
+        S("parafac2/reject", _p2_bad_case(), o_p2_bad, quick=350, thorough=2500),
     ]
     return subs
